@@ -25,7 +25,8 @@ def gen(rng, tier, boost):
     # all prefixes of each token, bare and inside open containers
     toks = ["0", "-0", "7", "1.0", "7.0", "-3.0", "10.00", "0.0", "0.5", "1.", "1.5e", "1.5e+", "1.5e+3", "2E-", "2E-0", "1e5", "12345678901234567890",
             "18446744073709551615", "-9223372036854775808", "0x1F", ".5", "+1", "true", "false", "null", "\"abc\"", "\"a\\n\"", "\"\\u0041\"",
-            "\"\\ud83d\\ude00\"", "\"\\", "\"\\u", "\"\\u00", "\"\\ud83d\\u", "\"\\ud83d\\ud", "[]", "{}", "{\"k\":1}", "[1,2]"]
+            "\"\\ud83d\\ude00\"", "\"\\", "\"\\u", "\"\\u00", "\"\\ud83d\\u", "\"\\ud83d\\ud", "[]", "{}", "{\"k\":1}", "[1,2]",
+            "\"\\u00\u00e9\u00e9\"", "\"\\u\u0080\u0081\u00fe\u00ff\"", "0x\u00e9\u00e9", "\"\\ud83d\\ud\u00e9\u00e9\u00e9\""]
     ctxs = ["", "[", "[ ", "[1,", "{\"a\":", "{\"a\": ", "[[", "{\"a\":[", " "]
     for t in toks:
         for k in range(1, len(t) + 1):
